@@ -330,7 +330,7 @@ def run(tier, seed, replay=None):
                         nontriv += 1
                     exp = expected_fields(st, top, list(forks), tz, version, ns, cur_cwd == "toolong")
                     if cur_cwd == "toolong":
-                        fail = re.escape(b"[ERROR: Data source 'cwd' failed")
+                        fail = re.escape(b"[ERROR: Data source 'cwd' failed") + rb"(?!.*x value = with equals)"     # ... and its text is its own, not the previous tag's
                         exp["cwd"] = re.compile(rb"^(" + fail + rb".*|/.*/long-" + label.encode() + (b"/" + LONGCOMP) * LONGCOUNT + rb")$", re.S)
                     if cur_cwd == "deleted":
                         # the call ran on the built-in defaults; the default message format carries %{cwd}, read from the syslog datagram
